@@ -67,6 +67,8 @@ def case_strategy():
         [["/a/b/c", "/ab/c"], ["/a/b", "/ab"], ["/a/b/c", "/a/bc", "/ab/c"], ["/a/b/a/b", "/ab/ab", "/a/b/ab"],
          ["/a/b/c", "/a/b/A", "/a/c"], ["/.a", "/a"], ["/..a/b", "/a/b"], ["/a b/c", "/a/b c", "/ab/c"], ["/.a/b", "/a/b"], ["/.a/..a", "/a/.a"],
          # the same text in composed and in decomposed unicode form: two different paths
+         # a dot inside a segment that lines up with a segment boundary of another path
+         ["/a/b", "/a.b"], ["/a/b.ab", "/a.b/ab"], ["/a.b/c", "/a/b.c", "/a/b/c"], ["/a/b/c", "/a.b.c"],
          ["/caf\u00e9", "/cafe\u0301"], ["/a/\u00e9/b", "/a/e\u0301/b", "/a/e/b"]]
     )
     val = st.one_of(
@@ -83,6 +85,7 @@ def case_strategy():
         st.tuples(st.just("sync"), st.lists(st.tuples(st.integers(0, 9), st.integers(0, 9)), min_size=1, max_size=3)),
         st.tuples(st.just("paths"), st.lists(st.integers(0, 9), min_size=1, max_size=3)),
         st.tuples(st.just("reopen")),
+        st.tuples(st.just("early"), st.integers(0, 9), st.integers(0, 3)),
     )
 
     @st.composite
@@ -253,6 +256,25 @@ def check_case(case, ev=None, scratch=None):
                     want = {p: paths[p] for p in ps}
                     if got != want:
                         fail(f"step {step}: fetch_paths({ps}) = {short(got)}, model {short(want)}")
+            elif kind == "early":
+                # a path committed with a key whose blob only arrives afterwards; a read is attempted in between (it may fail
+                # or give the key); once the blob is stored the path resolves to the key it was committed with
+                if not pool or case["kind"] == "dbfs" or KEYS[o[2]] in blobs:
+                    continue
+                k, p = KEYS[o[2]], pool[o[1] % len(pool)]
+                try:
+                    env.store.sync_paths(OrderedDict([(mkpath(p), k)]))
+                except BaseException:
+                    continue
+                try:
+                    early = dict(env.store.fetch_paths([mkpath(p)])).get(p)
+                except BaseException:
+                    early = k
+                if early != k:
+                    fail(f"step {step}: path {p} committed with {k[:6]} (blob not stored yet) resolves to {str(early)[:6]}")
+                env.store.store_blob(k, vals[o[2]], None)
+                blobs[k] = vals[o[2]]
+                paths[p] = k
             elif kind == "reopen":
                 env.open()
                 if len(paths) >= 2:
@@ -260,7 +282,7 @@ def check_case(case, ev=None, scratch=None):
                 scan(f"after reopen at step {step}")
             else:
                 raise common.HarnessError(kind)
-            scan(f"after step {step} {o}") if kind in ("sync",) else None
+            scan(f"after step {step} {o}") if kind in ("sync", "early") else None
         scan("at the end")
         if ev is not None:
             committed = [p for p in pool if p in paths]
